@@ -271,7 +271,7 @@ class CoordinateComponent(Component):
             # convert these straight to world coordinates since the indices
             # of the pixel coordinates are the pixel coordinates themselves.
             if (isinstance(view, (tuple, list)) and len(view) == self._data.ndim and
-                    all(isinstance(v, np.ndarray) for v in view)):
+                    all(isinstance(v, np.ndarray) and v.dtype.kind != 'b' for v in view)):
                 axis = self._data.ndim - 1 - self.axis
                 return pixel2world_single_axis(self._data.coords, *view[::-1],
                                                world_axis=axis)
